@@ -686,4 +686,300 @@ theorem loadBlt_lexOK (ls : List Line) (e : Err) (hl : lexOK ls = true) (h : loa
           | error e' => rw [hd2] at h; simp at h; subst h; exact Or.inr (deindex_err _ _ _ _ hd2)
           | ok tb => rw [hd2] at h; simp at h
 
+
+/-! ### candidate numbers within the header count: no IndexError either -/
+
+def inRange (n : Nat) : Tok → Bool
+  | .nat i => decide (1 ≤ i) && decide (i ≤ n)
+  | _ => false
+
+/-- the candidate numbers of a ballot line (everything between the weight and the closing 0) lie in 1..n;
+    withdrawn lines (negative first item) carry none -/
+def ballotIdxOK (n : Nat) : List Tok → Bool
+  | [] => true
+  | .dec r :: more => decide (r < 0) || (more.dropLast).all (inRange n)
+  | _ :: more => (more.dropLast).all (inRange n)
+
+def bodyIdxOK (n : Nat) : List Line → Bool
+  | [] => true
+  | .blank :: rest => bodyIdxOK n rest
+  | .quoted _ :: _ => true
+  | .toks ts :: rest => isTerm ts || (ballotIdxOK n ts && bodyIdxOK n rest)
+
+/-- `idxOK`: with a header `n s`, every ballot line read names candidates 1..n only -/
+def idxOK : List Line → Bool
+  | .toks [.nat n, .nat _] :: rest => bodyIdxOK n rest
+  | _ => true
+
+theorem parseItems_false_nats (a : Bool) : ∀ (ts : List Tok) (xs : List Num), ts.all Tok.isNum = true →
+    parseItems a false ts = .ok xs → ∃ ns : List Nat, ts = ns.map Tok.nat ∧ xs = ns.map Num.nat
+  | [], xs, _, h => by simp [parseItems] at h; subst h; exact ⟨[], rfl, rfl⟩
+  | t :: ts, xs, hn, h => by
+      simp only [List.all_cons, Bool.and_eq_true] at hn
+      cases t with
+      | nat n =>
+        simp only [parseItems, ok_bind, pure_eq] at h
+        cases hr : parseItems a false ts with
+        | error e => rw [hr] at h; simp at h
+        | ok ys =>
+          rw [hr] at h; simp at h; subst h
+          obtain ⟨ns, h1, h2⟩ := parseItems_false_nats a ts ys hn.2 hr
+          exact ⟨n :: ns, by simp [h1], by simp [h2]⟩
+      | dec r => simp [parseItems] at h
+      | nan => simp [Tok.isNum] at hn
+      | udigit => simp [Tok.isNum] at hn
+      | bad => simp [Tok.isNum] at hn
+
+/-- all stored ballots name candidates 1..n -/
+def rawOK (n : Nat) (bs : RawBallots) : Prop := ∀ b ∈ bs, ∀ i ∈ b.1, 1 ≤ i ∧ i ≤ n
+
+theorem addBallot_rawOK (n : Nat) : ∀ (bs : RawBallots) (b : List Nat) (w : Rat), rawOK n bs →
+    (∀ i ∈ b, 1 ≤ i ∧ i ≤ n) → rawOK n (addBallot bs b w)
+  | [], b, w, _, hb => by
+      intro x hx; simp [addBallot] at hx; subst hx; exact hb
+  | (b', w') :: t, b, w, h, hb => by
+      simp only [addBallot]
+      split
+      · intro x hx
+        rcases List.mem_cons.1 hx with h1 | h1
+        · subst h1; exact h (b', w') (List.mem_cons_self)
+        · exact h x (List.mem_cons_of_mem _ h1)
+      · intro x hx
+        rcases List.mem_cons.1 hx with h1 | h1
+        · subst h1; exact h (b', w') (List.mem_cons_self)
+        · exact addBallot_rawOK n t b w (fun y hy => h y (List.mem_cons_of_mem _ hy)) hb x h1
+
+theorem natsOf_dropLast_nats (ns : List Nat) : natsOf ((ns.map Num.nat).dropLast) = ns.dropLast := by
+  rw [← List.map_dropLast, natsOf_nats]
+
+theorem parseBody_rawOK (n : Nat) : ∀ (ls : List Line) (bs : RawBallots) (wd : List Rat) (seen : Bool)
+    (r : RawBallots × List Rat × List Line),
+    bodyLexOK ls = true → bodyIdxOK n ls = true → rawOK n bs → parseBody ls bs wd seen = .ok r → rawOK n r.1
+  | [], _, _, _, r, _, _, _, h => by simp [parseBody] at h
+  | .blank :: rest, bs, wd, seen, r, hl, hi, hb, h => by
+      simp only [bodyLexOK] at hl
+      simp only [bodyIdxOK] at hi
+      simp only [parseBody, parseNumline, pure_eq, ok_bind] at h
+      exact parseBody_rawOK n rest bs wd seen r hl hi hb h
+  | .quoted s :: rest, _, _, _, _, hl, _, _, _ => by simp [bodyLexOK] at hl
+  | .toks ts :: rest, bs, wd, seen, r, hl, hi, hb, h => by
+      simp only [bodyLexOK, Bool.and_eq_true, Bool.or_eq_true] at hl
+      obtain ⟨hnum, hterm⟩ := hl
+      by_cases hT : isTerm ts = true
+      · rw [isTerm_parseBody ts hT] at h
+        cases h
+        exact hb
+      · have hrest : bodyLexOK rest = true := by
+          cases hterm with
+          | inl h1 => exact absurd h1 hT
+          | inr h1 => exact h1
+        simp only [bodyIdxOK, hT, Bool.false_or, Bool.and_eq_true] at hi
+        obtain ⟨hidx, hirest⟩ := hi
+        simp only [parseBody, parseNumline] at h
+        cases hr : parseItems true true ts with
+        | error e' => rw [hr] at h; simp at h
+        | ok result =>
+          rw [hr] at h
+          simp only [ok_bind] at h
+          cases result with
+          | nil => exact parseBody_rawOK n rest bs wd seen r hrest hirest hb h
+          | cons first more =>
+            -- the tokens behind `more` are plain numbers
+            cases ts with
+            | nil => simp [parseItems] at hr
+            | cons t0 ts' =>
+              simp only [List.all_cons, Bool.and_eq_true] at hnum
+              have hmore : ∃ ns : List Nat, ts' = ns.map Tok.nat ∧ more = ns.map Num.nat := by
+                cases t0 with
+                | nat k =>
+                  simp only [parseItems, ok_bind, pure_eq] at hr
+                  cases hr' : parseItems true false ts' with
+                  | error e => rw [hr'] at hr; simp at hr
+                  | ok ys =>
+                    rw [hr'] at hr; simp at hr
+                    obtain ⟨_, rfl⟩ := hr
+                    exact parseItems_false_nats true ts' ys hnum.2 hr'
+                | dec q =>
+                  simp only [parseItems, Bool.and_self, if_true, ok_bind, pure_eq] at hr
+                  cases hr' : parseItems true false ts' with
+                  | error e => rw [hr'] at hr; simp at hr
+                  | ok ys =>
+                    rw [hr'] at hr; simp at hr
+                    obtain ⟨_, rfl⟩ := hr
+                    exact parseItems_false_nats true ts' ys hnum.2 hr'
+                | nan => simp [Tok.isNum] at hnum
+                | udigit => simp [Tok.isNum] at hnum
+                | bad => simp [Tok.isNum] at hnum
+              obtain ⟨ns, hts', rfl⟩ := hmore
+              simp only at h
+              repeat' split at h
+              all_goals first
+                | (simp at h; done)
+                | (cases h; exact hb)
+                | exact parseBody_rawOK n rest bs _ seen r hrest hirest hb h
+                | skip
+              -- the ballot branch
+              all_goals (
+                rename_i hnotterm hnotnan hnotneg last hlast hlast0 w idx hbody
+                refine parseBody_rawOK n rest _ wd true r hrest hirest (addBallot_rawOK n bs _ _ hb ?_) h
+                cases ns with
+                | nil => simp at hbody
+                | cons k ks =>
+                  have hdl : (first :: List.map Num.nat (k :: ks)).dropLast = first :: (List.map Num.nat (k :: ks)).dropLast := by
+                    simp [List.dropLast]
+                  rw [hdl] at hbody
+                  simp only [List.cons.injEq] at hbody
+                  obtain ⟨hw, hidxeq⟩ := hbody
+                  rw [← hidxeq, natsOf_dropLast_nats]
+                  -- the candidate numbers are in range by `ballotIdxOK`
+                  have hall : ((k :: ks).dropLast.map Tok.nat).all (inRange n) = true := by
+                    have hdrop : ts'.dropLast = (k :: ks).dropLast.map Tok.nat := by rw [hts', List.map_dropLast]
+                    cases t0 with
+                    | nat k0 => simpa [ballotIdxOK, hdrop] using hidx
+                    | dec q =>
+                      have hfirst : first = Num.dec q := by
+                        simp only [parseItems, Bool.and_self, if_true, ok_bind, pure_eq] at hr
+                        cases hr' : parseItems true false ts' with
+                        | error e => rw [hr'] at hr; simp at hr
+                        | ok ys => rw [hr'] at hr; simp at hr; exact hr.1.symm
+                      have hq : ¬ q < 0 := by simpa [hfirst, Num.val] using hnotterm
+                      simpa [ballotIdxOK, hdrop, hq] using hidx
+                    | nan => simp [Tok.isNum] at hnum
+                    | udigit => simp [Tok.isNum] at hnum
+                    | bad => simp [Tok.isNum] at hnum
+                  intro i hi
+                  have := (List.all_eq_true.1 hall) (Tok.nat i) (List.mem_map_of_mem hi)
+                  simpa [inRange] using this)
+
+
+theorem deindexOne_inrange (n : Nat) : ∀ idx : List Nat, (∀ i ∈ idx, 1 ≤ i ∧ i ≤ n) → ∃ js, deindexOne n idx = .ok js
+  | [], _ => ⟨[], rfl⟩
+  | i :: t, h => by
+      obtain ⟨h1, h2⟩ := h i (List.mem_cons_self)
+      obtain ⟨js, hj⟩ := deindexOne_inrange n t (fun j hj => h j (List.mem_cons_of_mem _ hj))
+      have hne : i ≠ 0 := by omega
+      exact ⟨(i - 1) :: js, by simp [deindexOne, pyIndex, hne, h2, hj]⟩
+
+theorem deindex_inrange (n : Nat) : ∀ (bs : RawBallots) (acc : List (List Nat × Rat)), rawOK n bs →
+    ∃ out, deindex n bs acc = .ok out
+  | [], acc, _ => ⟨acc, rfl⟩
+  | (b, w) :: t, acc, h => by
+      obtain ⟨js, hj⟩ := deindexOne_inrange n b (h (b, w) (List.mem_cons_self))
+      obtain ⟨out, ho⟩ := deindex_inrange n t (setBallot acc js w) (fun x hx => h x (List.mem_cons_of_mem _ hx))
+      exact ⟨out, by simp [deindex, hj, ho]⟩
+
+theorem numericCandidates_length (n : Nat) : (numericCandidates n).length = n := by simp [numericCandidates]
+
+/-- whatever `_parse_strings` returns, the candidate list has exactly the header's length -/
+theorem parseStrings_length (ls : List Line) (n : Nat) (names? : Option (List String)) (title : Option String)
+    (h : parseStrings ls n = .ok (names?, title)) : (names?.getD (numericCandidates n)).length = n := by
+  simp only [parseStrings] at h
+  cases hc : collectStrings ls false [] with
+  | error e => rw [hc] at h; simp at h
+  | ok parsed =>
+    rw [hc] at h
+    simp only [ok_bind] at h
+    repeat' split at h
+    all_goals first
+      | (simp at h; done)
+      | (simp at h; obtain ⟨rfl, _⟩ := h; simp [numericCandidates_length]; done)
+      | (simp at h; obtain ⟨rfl, _⟩ := h; simp [numericCandidates_length]; omega)
+
+theorem parseItems_length (a : Bool) : ∀ (ts : List Tok) (i0 : Bool) (xs : List Num),
+    parseItems a i0 ts = .ok xs → xs.length = ts.length
+  | [], _, xs, h => by simp [parseItems] at h; subst h; rfl
+  | t :: ts, i0, xs, h => by
+      have step : ∀ (x : Num), (parseItems a false ts >>= fun ys => pure (x :: ys)) = Except.ok xs →
+          xs.length = (t :: ts).length := by
+        intro x hx
+        cases hr : parseItems a false ts with
+        | error e => rw [hr] at hx; simp at hx
+        | ok ys =>
+          rw [hr] at hx; simp at hx; subst hx
+          simp [parseItems_length a ts false ys hr]
+      cases t with
+      | nat n => simp only [parseItems, ok_bind, pure_eq] at h; exact step _ h
+      | udigit => simp [parseItems] at h
+      | dec r =>
+        simp only [parseItems] at h
+        by_cases hc : (i0 && a) = true
+        · simp only [hc, if_true, ok_bind, pure_eq] at h; exact step _ h
+        · simp [hc] at h
+      | nan =>
+        simp only [parseItems] at h
+        by_cases hc : (i0 && a) = true
+        · simp only [hc, if_true, ok_bind, pure_eq] at h; exact step _ h
+        · simp [hc] at h
+      | bad =>
+        simp only [parseItems] at h
+        by_cases hc : (i0 && a) = true
+        · simp [hc] at h
+        · simp [hc] at h
+
+theorem parseHeader_ok_inv (hd : Line) (nC nS : Nat) (h : parseHeader hd = .ok (nC, nS)) :
+    hd = Line.toks [.nat nC, .nat nS] := by
+  simp only [parseHeader] at h
+  cases hp : parseNumline false hd with
+  | error e' => rw [hp] at h; simp at h
+  | ok xs =>
+    rw [hp] at h
+    simp only [ok_bind] at h
+    split at h
+    · rename_i a b
+      simp at h
+      obtain ⟨rfl, rfl⟩ := h
+      cases hd with
+      | blank => simp [parseNumline] at hp
+      | quoted s => simp [parseNumline] at hp
+      | toks ts =>
+        simp only [parseNumline] at hp
+        have hlen := parseItems_length false ts true _ hp
+        match ts, hlen, hp with
+        | [t1, t2], _, hp =>
+          cases t1 <;> cases t2 <;> simp [parseItems] at hp
+          obtain ⟨rfl, rfl⟩ := hp
+          rfl
+    · simp at h
+
+theorem loadBlt_inrange (ls : List Line) (e : Err) (hl : lexOK ls = true) (hi : idxOK ls = true)
+    (h : loadBlt ls = .error e) : e = Err.parseError := by
+  cases ls with
+  | nil => simp [loadBlt] at h; exact h.symm
+  | cons hd rest =>
+    rw [lexOK_cons, Bool.and_eq_true] at hl
+    obtain ⟨hhead, hbody⟩ := hl
+    simp only [loadBlt] at h
+    cases hh : parseHeader hd with
+    | error e' => rw [hh] at h; simp at h; subst h; exact parseHeader_lexOK _ _ hhead hh
+    | ok ns =>
+      obtain ⟨nC, nS⟩ := ns
+      -- a header that parses is `toks [nat nC, nat nS]`, so `idxOK` speaks about nC
+      have hidx : bodyIdxOK nC rest = true := by
+        obtain ⟨hdeq⟩ : Nonempty (hd = Line.toks [.nat nC, .nat nS]) := ⟨parseHeader_ok_inv hd nC nS hh⟩
+        subst hdeq
+        simpa [idxOK] using hi
+      rw [hh] at h
+      simp only [ok_bind] at h
+      cases hb : parseBody rest [] [] false with
+      | error e' => rw [hb] at h; simp at h; subst h; exact parseBody_lexOK _ _ _ _ _ hbody hb
+      | ok r =>
+        obtain ⟨bal, wd, rest'⟩ := r
+        have hraw : rawOK nC bal :=
+          parseBody_rawOK nC rest [] [] false (bal, wd, rest') hbody hidx (fun b hb => by simp at hb) hb
+        rw [hb] at h
+        simp only [ok_bind] at h
+        cases hs : parseStrings rest' nC with
+        | error e' => rw [hs] at h; simp at h; subst h; exact parseStrings_err _ _ _ hs
+        | ok r2 =>
+          obtain ⟨names?, title⟩ := r2
+          rw [hs] at h
+          simp only [ok_bind] at h
+          have hlen : (formCandidates (names?.getD (numericCandidates nC)) wd).length = nC := by
+            simp only [formCandidates]
+            rw [formFrom_length, parseStrings_length _ _ _ _ hs]
+          rw [hlen] at h
+          obtain ⟨out, ho⟩ := deindex_inrange nC bal [] hraw
+          rw [ho] at h
+          simp at h
+
 end VL.Blt
